@@ -68,6 +68,11 @@ pub fn install_panic_hook() {
             } else {
                 "<non-string panic>".to_string()
             };
+            if msg.contains("unsafe precondition") || std::thread::current().name() != Some("main") {
+                // aborting panics (unsafe precondition checks, panics while panicking) and panics on engine-spawned
+                // threads are not caught by `guard`: leave a diagnostic for the orchestrator
+                eprintln!("PANIC-NOUNWIND at {file}:{line}: {msg}");
+            }
             LAST_PANIC.with(|p| *p.borrow_mut() = Some(PanicInfo { file, line, msg }));
         }));
     });
